@@ -423,6 +423,39 @@ func (r *c10Run) step(ctx context.Context, raw json.RawMessage) {
 		if r.guarded("Rm", func() { err = r.reg.RemoveEndpoint(ctx, r.eps[id].URLString) }) {
 			r.b.Emit("Rm", "e", id, "err", err != nil)
 		}
+	case "Chase":
+		// a successful discovery whose background unification is held at the gate while a rejected list for the
+		// same endpoint goes through the registry API; then the unification is let go
+		id := zzverif.Str(args[0])
+		l, bad := c10Entries(args[1]), c10Entries(args[2])
+		ms := c10Models(bad)
+		r.rig.be[id].script(c10Resp{status: 200, listing: l})
+		var e1, e2 error
+		ok := r.guarded("Chase", func() {
+			release := func() {}
+			if r.unified {
+				release = registry.VerifC10Hold(r.eps[id].URLString)
+			}
+			defer release()
+			e1 = r.discover(ctx, id)
+			if ur, isU := r.reg.(*registry.UnifiedMemoryModelRegistry); isU {
+				e2 = ur.RegisterModelsWithEndpoint(ctx, r.eps[id], ms)
+			} else {
+				e2 = r.reg.RegisterModels(ctx, r.eps[id].URLString, ms)
+			}
+		})
+		if ok {
+			if r.unified {
+				if e1 == nil {
+					r.expected++
+				}
+				if e2 == nil {
+					r.expected++
+				}
+			}
+			r.b.Emit("Reg", "e", id, "L", l, "err", e1 != nil, "burst", 1)
+			r.b.Emit("Bad", "e", id, "L", bad, "rejected", e2 != nil)
+		}
 	case "Burst":
 		// two successful discoveries of the same endpoint, the second issued as soon as the first
 		// returned (its asynchronous merge may still be pending)
